@@ -331,6 +331,10 @@ fn main() {
                 Ok(v) => v,
                 Err(e) => json!({"panic": panic_msg(e)}),
             },
+            "cmds" => match catch_unwind(AssertUnwindSafe(|| json!({"cmds": x::parser_line::line_to_cmds(&line)}))) {
+                Ok(v) => v,
+                Err(e) => json!({"panic": panic_msg(e)}),
+            },
             "tokens" => match catch_unwind(AssertUnwindSafe(|| {
                 let li = x::parser_line::parse_line(&line);
                 json!({"tokens": toks(&li.tokens), "complete": li.is_complete, "arith": x::tools::is_arithmetic(&line)})
